@@ -3,7 +3,7 @@ from props import _auto
 
 LEAN_MODULES = _auto.lean_modules("C12")
 VARIANTS = ['default']
-RULE = 'scalars (random, 0, all-ones, every single-bit) x u (random, 0,1,p-1,p,p+1,2^255-1,2^256-1, small-order); RFC 7748 iteration; non-trivial = non-zero scalar and u; distinct = distinct case lines'
+RULE = 'scalars (random, 0, all-ones, every single-bit) x u (random, 0,1,p-1,p,p+1,2^255-1,2^256-1, small-order): every single-bit scalar x each of the 9 named u values by construction (thorough: all 256 bits, quick: every 8th bit), every single-bit scalar x {9, random u} in both tiers, special scalars x all special u, single-bit neighbours of the distinguished u and scalar values; RFC 7748 iteration; non-trivial = non-zero scalar and u; distinct = distinct case lines'
 TRUSTED = ["hand-written Lean models (lean/CxVerif/Impl, Spec) tied to the code by the correspondence run and by tables re-extracted from /repo/src"]
 ASSUMPTIONS = []
 gen = _auto.make_gen("C12")
